@@ -28,6 +28,10 @@ TRUSTED = [
     'not modelled: expat, the text-template regular expressions, Suite compilation, directive evaluation '
     '(templates are abstracted to sequences of text / expression / code-block / include items)',
     'the translator harness/extract_exec.py (behavioural probes of every class x construction way x spelling)',
+    'the translator harness/extract_execshape.py (every placement of a code block x every way a template object comes '
+    'into being, flag off and on; the walker of the object graph and the skeleton of the streams)',
+    'modelled, not verified: Template._prepare_self/_prepare memoisation, LRUCache order (ExecMemo; tied by the stream '
+    'memo-history incl. the final cache keys in LRU order)',
 ]
 ASSUMPTIONS = [
     'a configuration is "disabled" for a template when the flag that governs its instantiation is off: the '
@@ -249,6 +253,11 @@ def observe(case, cfg=None, wd=None):
             base._exec_suite = orig
         if fobj is not None:
             fobj.close()
+        try:
+            # keys of the loader's cache, most recently used first (LRUCache.__iter__)
+            obs['cache'] = [[os.path.basename(k), os.path.isabs(k)] for k in loader._cache]
+        except Exception:  # noqa
+            obs['cache'] = None
         if own_wd:
             wd.close()
     obs['phase'] = phase
@@ -444,6 +453,7 @@ def compare_reach(pairs, res):
             continue
         lines.append(reach_line(case, ch))
         keep.append((case, obs))
+    compare_shape_reach(keep, res)
     for (case, obs), ans in zip(keep, proto.run_lines(lines)):
         res.streams['reach'] = res.streams.get('reach', 0) + 1
         try:
@@ -456,6 +466,142 @@ def compare_reach(pairs, res):
         res.count('reach-verdict:' + model)
         if model != real:
             res.disagreements.append({'stream': 'reach', 'case': case, 'model': model, 'real': real})
+
+
+_SHAPE_IDX = {}
+
+
+def shape_index(syn, place):
+    """index of the translator's shape (harness/extract_execshape.py) for a placement"""
+    if not _SHAPE_IDX:
+        from harness import extract_execshape as S
+        for c in G.CLASSES:
+            for k, (name, _) in enumerate(S.shapes(c)):
+                _SHAPE_IDX[(c, name)] = k
+    return _SHAPE_IDX.get((syn, place))
+
+
+def compare_shape_reach(pairs, res):
+    """stream shape-reach: chain cases whose deepest template holds one code block at a placement the
+    translator probes; `reachRow` (the generated shape table looked up along the reach path of the
+    reachability model) vs what happened: error kind, did the block run, the governing flag"""
+    lines, keep = [], []
+    for case, obs in pairs:
+        ch = chain_of(case)
+        last = case['files'][-1] if ch is not None else None
+        if ch is None or len(case['files']) != len(ch) + 1:
+            continue
+        code = G.code_items(last)[0]
+        k = shape_index(last['syn'], code[2])
+        if k is None or any(it[3] for f in case['files'] for it in G.includes(f)):
+            continue
+        lines.append(proto.line(Atom('C14'), Atom('reachshape'), *(wire_cfg(case['cfg']) +
+                                [wire_root(case), [_cap(p) for p in ch], k])))
+        keep.append((case, obs, ch))
+    for (case, obs, ch), ans in zip(keep, proto.run_lines(lines)):
+        if ans == 'none':
+            # the way is probed for the core shapes only, or the option value is a configuration error
+            res.count('shape-reach:unprobed-or-config')
+            continue
+        res.streams['shape-reach'] = res.streams.get('shape-reach', 0) + 1
+        try:
+            row = proto.dec(ans)
+            model = {'cls': str(row[0]), 'err': str(row[1]), 'ran': row[2] == 'T'}
+            flag = row[4] == 'T'
+        except Exception:  # noqa
+            res.disagreements.append({'stream': 'shape-reach', 'case': case, 'model': 'bad-answer:' + ans[:60], 'real': None})
+            continue
+        real = {'cls': case['files'][-1]['syn'],
+                'err': {'ok': 'ok', 'TemplateSyntaxError': 'Syntax'}.get(obs['outcome'], 'other'),
+                'ran': bool(obs['sentinel'])}
+        g_root, g_inc = governing(case)
+        g = g_root if not ch else g_inc
+        res.count('shape-reach:depth%d:%s:%s' % (len(ch), 'on' if flag else 'off', model['err']))
+        res.count('shape-reach:place:' + G.code_items(case['files'][-1])[0][2])
+        if model != real or (g is not None and g != flag):
+            res.disagreements.append({'stream': 'shape-reach', 'case': case, 'model': dict(model, flag=flag),
+                                      'real': dict(real, flag=g)})
+
+
+def sk_wire(sk):
+    out = []
+    for n in sk:
+        if n[0] == 'ev':
+            out.append(Atom('V'))
+        elif n[0] == 'exec':
+            out.append(Atom('X'))
+        else:
+            out.append([Atom('S' if n[0] == 'sub' else 'I')] + sk_wire(n[1]))
+    return out
+
+
+def real_stream_facts(stream):
+    """(an EXEC event at any depth, an EXEC event at the top level, depth of the deepest EXEC event) of a
+    real template stream — computed on the events themselves, not on the skeleton"""
+    from genshi.template.base import EXEC, SUB, INCLUDE
+    flat = any(ev[0] is EXEC for ev in stream)
+
+    def depth(st):
+        d = 0
+        for ev in st or []:
+            if ev[0] is EXEC:
+                d = max(d, 1)
+            elif ev[0] is SUB:
+                x = depth(ev[1][1])
+                d = max(d, x + 1 if x else 0)
+            elif ev[0] is INCLUDE:
+                x = depth(ev[1][2])
+                d = max(d, x + 1 if x else 0)
+        return d
+    d = depth(stream)
+    return d > 0, flat, d
+
+
+def compare_skeleton(rng, n, res):
+    """stream skeleton: random templates (random placements of code blocks, plain items, several per
+    template) are constructed for real with execution allowed, prepared, and the skeleton of their
+    stream goes to the model's recursive definitions (`hasExecL`, `flatExec`, `execDepthL`); compared with
+    the same facts computed on the real events and with a generic walk of the object graph for Suites"""
+    from harness import extract_execshape as S
+    classes = _classes()
+    lines, keep = [], []
+    for _ in range(n):
+        syn = rng.choice(['markup', 'markup', 'newtext'])
+        places = G.PLACES_MARKUP if syn == 'markup' else G.PLACES_TEXT
+        items = []
+        for j in range(rng.randrange(0, 5)):
+            r = rng.random()
+            if r < 0.55:
+                items.append(['code', 10 + j, rng.choice(places)])
+            elif r < 0.8:
+                items.append(['text', 10 + j])
+            else:
+                items.append(['expr', 10 + j])
+        src = G.RENDER[syn](items)
+        prepared = rng.random() < 0.7
+        try:
+            t = classes[syn](src, allow_exec=True)
+            stream = list(t.stream) if prepared else list(vars(t)['_stream'])
+            tm, suites = S.walk([t])
+        except Exception as e:  # noqa
+            res.count('skeleton:real-error:' + type(e).__name__)
+            continue
+        sk = S.skeleton(stream)
+        lines.append(proto.line(Atom('C14'), Atom('objskel'), sk_wire(sk)))
+        keep.append(({'skeleton': syn, 'items': items, 'prepared': prepared}, real_stream_facts(stream), suites > 0))
+    for (case, real, suite), ans in zip(keep, proto.run_lines(lines)):
+        res.streams['skeleton'] = res.streams.get('skeleton', 0) + 1
+        try:
+            m = proto.dec(ans)
+            model = [m[0] == 'T', m[1] == 'T', int(m[2])]
+        except Exception:  # noqa
+            model = 'bad-answer:' + ans[:60]
+        res.count('skeleton:depth%d' % real[2])
+        if real[0] and not real[1]:
+            res.count('skeleton:exec-not-at-top-level')
+        if model != list(real) or real[0] != suite:
+            res.disagreements.append({'stream': 'skeleton', 'case': case, 'model': model,
+                                      'real': {'facts': list(real), 'suite-in-object-graph': suite}})
 
 
 def render_line(case):
@@ -590,8 +736,79 @@ def compare_lru(pairs, res):
                   and model['sentinel'] == real['sentinel'] and model['out'] == real['out'])
         if len(set(case.get('history', []))) + 1 > case['cache']:
             res.count('lru:more names than the bound')
+        # the CONTENTS of the cache at the end (keys, most recently used first)
+        if ok and obs.get('cache') is not None and 'diverge' not in model.get('errs', []):
+            try:
+                mc = [[int(e[0]), e[1] == 'T'] for e in m[2]]
+            except Exception:  # noqa
+                mc = None
+            rc = [[idx.get(k[0], -1), bool(k[1])] for k in obs['cache']]
+            mode = 'reload' if case['cfg']['auto_reload'] else 'inline'
+            if mc == rc:
+                res.count('lru-cache:%s:same keys, same order' % mode)
+            elif mc is not None and sorted(mc) == sorted(rc):
+                res.count('lru-cache:%s:same keys, other order' % mode)
+            else:
+                res.count('lru-cache:%s:other keys' % mode)
+            if mc != rc and case['cfg']['auto_reload']:
+                ok = False
+                model['cache'], real['cache'] = mc, rc
         if not ok:
             res.disagreements.append({'stream': 'lru-history', 'case': case, 'model': json.dumps(model, sort_keys=True),
+                                      'real': json.dumps(real, sort_keys=True)})
+
+
+def compare_memo(pairs, res):
+    """stream memo-history: the bounded-cache model WITH `_prepared` memoisation as state (`ExecMemo`:
+    template objects with an identity keep their prepared stream) against the real loader on the same
+    histories of load-and-render calls — per call the error, the output of the last call, the sentinel, and
+    the CONTENTS of the cache at the end (keys, most recently used first), in inline and in reload mode"""
+    sel = [(c, o) for c, o in pairs if c.get('cache') is not None and c['root']['kind'] == 'load'
+           and c['cfg'].get('loader') in G.REQS and o.get('cache') is not None]
+    lines = []
+    for case, _ in sel:
+        idx = dict((f['name'], i) for i, f in enumerate(case['files']))
+        fm = G.file_map(case)
+        files = proto.dec(render_line(case))[7]
+        hist = [[idx[n], _cap(fm[n]['syn'])] for n in case.get('history', [])]
+        hist.append([0, _cap(case['files'][0]['syn'])])
+        lines.append(proto.line(Atom('C14'), Atom('memohist'), case['cache'], B(case['cfg']['loader'] != 'off'),
+                                B(case['cfg']['auto_reload']), files, hist))
+    for (case, obs), ans in zip(sel, proto.run_lines(lines)):
+        if ans == 'unmodelled':
+            res.count('model:unmodelled (memo)')
+            continue
+        idx = dict((f['name'], i) for i, f in enumerate(case['files']))
+        real_errs = [_real_err(h[0], h[1] if h[0] != 'ok' else None, idx) for h in obs['history']]
+        real_errs.append(_real_err(obs['outcome'], obs['errfile'], idx))
+        real = {'errs': real_errs, 'sentinel': list(obs['sentinel']),
+                'out': [int(t[1:-1]) for t in obs['out']] if obs['outcome'] == 'ok' else [],
+                'cache': [[idx.get(k[0], -1), bool(k[1])] for k in obs['cache']]}
+        try:
+            m = proto.dec(ans)
+            model = {'errs': [_model_err(st[0]) for st in m[0]], 'sentinel': [int(x) for x in m[1]],
+                     'out': [int(x) for x in m[0][-1][1]] if _model_err(m[0][-1][0]) == 'ok' else [],
+                     'cache': [[int(e[0]), e[1] == 'T'] for e in m[2]]}
+            nprep = sum(1 for e in m[2] if e[2] == 'T')
+        except Exception:  # noqa
+            model, nprep = {'bad-answer': ans[:200]}, 0
+        if 'diverge' in model.get('errs', []):
+            res.count('model:diverge (memo)')
+            continue
+        res.streams['memo-history'] = res.streams.get('memo-history', 0) + 1
+        mode = 'reload' if case['cfg']['auto_reload'] else 'inline'
+        res.count('memo:%s:cache%d' % (mode, case['cache']))
+        res.count('memo:prepared objects in the cache at the end: %d' % min(nprep, 3))
+
+        def same_err(a, b):
+            if isinstance(a, list) and isinstance(b, list) and b[1] is None:
+                return a[0] == b[0]
+            return a == b
+        ok = ('errs' in model and len(model['errs']) == len(real['errs'])
+              and all(same_err(x, y) for x, y in zip(model['errs'], real['errs']))
+              and model['sentinel'] == real['sentinel'] and model['out'] == real['out'] and model['cache'] == real['cache'])
+        if not ok:
+            res.disagreements.append({'stream': 'memo-history', 'case': case, 'model': json.dumps(model, sort_keys=True),
                                       'real': json.dumps(real, sort_keys=True)})
 
 
@@ -857,7 +1074,9 @@ def shard(arg):
         compare_reach(pairs, res)
         compare_render(pairs, res)
         compare_lru(pairs, res)
+        compare_memo(pairs, res)
         compare_parse(rng, max(20, nrandom), res)
+        compare_skeleton(rng, max(40, nrandom // 2), res)
         if idx == 0:
             compare_parseopt(res)
     finally:
